@@ -16,6 +16,7 @@
 package jwt
 
 import (
+	"crypto/ed25519"
 	"crypto/sha512"
 	"encoding/base32"
 	"encoding/base64"
@@ -213,6 +214,11 @@ func (c *ClaimsData) Verify(payload string, sig []byte) bool {
 	// decode the public key
 	kp, err := nkeys.FromPublicKey(c.Issuer)
 	if err != nil {
+		return false
+	}
+	// a well-formed nkey string can carry a key of the wrong size, which
+	// ed25519 refuses with a panic rather than an error
+	if raw, err := nkeys.Decode(nkeys.Prefix(c.Issuer), []byte(c.Issuer)); err != nil || len(raw) != ed25519.PublicKeySize {
 		return false
 	}
 	if err := kp.Verify([]byte(payload), sig); err != nil {
